@@ -3,15 +3,26 @@
 #include "vh.hpp"
 #include "coloquinte.hpp"
 #include <algorithm>
+#include <cmath>
 using namespace coloquinte;
 
-struct GenOpts { bool multirow = true, polarity = true, turned = true, fixed = true, splitrows = true, nets = false, mixedSplit = false, tile = false, abut = false; int maxCells = 12; long long scale = 1; int utilLo = 30, utilHi = 110; };
+struct GenOpts { bool multirow = true, polarity = true, turned = true, fixed = true, splitrows = true, nets = false, mixedSplit = false, tile = false, abut = false; int maxCells = 12; long long scale = 1; int utilLo = 30, utilHi = 110;
+  // net weights at the boundary of what addNet accepts (default off = the weights {0.5, 1, 1.5, 2} only, same random stream as before):
+  // zeroWeightPct % of the nets get weight 0, tinyWeightPct % a tiny positive weight 2^-k, k = 1..140 (denormal below 2^-126)
+  int zeroWeightPct = 0, tinyWeightPct = 0; };
+// code of a net weight in the case lines: w2 >= 0 means weight w2 / 2 (0 = weight zero); w2 < 0 means weight 2^w2
+inline int genNetW2(SplitMix &g, const GenOpts &o, int plain) {
+  if (o.zeroWeightPct > 0 && g.coin(o.zeroWeightPct)) return 0;
+  if (o.tinyWeightPct > 0 && g.coin(o.tinyWeightPct)) return -(int)(g.coin(30) ? g.uni(120, 140) : g.uni(1, 60));
+  return plain;
+}
+inline float netWeightOfCode(long long w2) { return w2 >= 0 ? (float)w2 * 0.5f : std::ldexp(1.0f, (int)w2); }
 
 struct TCircuit {   // textual circuit
   std::vector<std::array<long long, 5>> rows;                 // minX maxX minY maxY orient
   std::vector<std::array<long long, 8>> cells;                // x y w h orient pol fixed obs
   std::vector<std::vector<std::array<long long, 3>>> nets;    // cell xo yo
-  std::vector<int> netw2;                                     // weight * 2
+  std::vector<int> netw2;                                     // weight * 2 (>= 0), or k < 0 for the weight 2^k
 };
 
 // rows tiled exactly by row-high cells sitting at their positions (a legal placement with segments filled to 100 %,
@@ -164,7 +175,7 @@ inline TCircuit genCircuit(SplitMix &g, const GenOpts &o) {
     for (int k = 0; k < nn; ++k) {
       int d = (int)g.uni(1, 5); std::vector<std::array<long long, 3>> net;
       for (int j = 0; j < d; ++j) { int cc = (int)g.uni(0, n - 1); net.push_back({cc, g.uni(-1, t.cells[cc][2] / sc + 1) * sc, g.uni(-1, t.cells[cc][3] / sc + 1) * sc}); }
-      t.nets.push_back(net); t.netw2.push_back((int)g.uni(1, 4));
+      t.nets.push_back(net); t.netw2.push_back(genNetW2(g, o, (int)g.uni(1, 4)));
     }
   }
   return t;
@@ -207,7 +218,7 @@ inline Circuit buildCircuit(const TCircuit &t) {
   c.setCellWidth(w); c.setCellHeight(h); c.setCellIsFixed(fx); c.setCellIsObstruction(ob); c.setCellRowPolarity(pol); c.setCellOrientation(ori); c.setCellX(x); c.setCellY(y);
   std::vector<Row> rows; for (auto &r : t.rows) rows.emplace_back((int)r[0], (int)r[1], (int)r[2], (int)r[3], (CellOrientation)r[4]);
   c.setRows(rows);
-  for (size_t k = 0; k < t.nets.size(); ++k) { std::vector<int> cs, xo, yo; for (auto &p : t.nets[k]) { cs.push_back(p[0]); xo.push_back(p[1]); yo.push_back(p[2]); } c.addNet(cs, xo, yo, t.netw2[k] * 0.5f); }
+  for (size_t k = 0; k < t.nets.size(); ++k) { std::vector<int> cs, xo, yo; for (auto &p : t.nets[k]) { cs.push_back(p[0]); xo.push_back(p[1]); yo.push_back(p[2]); } c.addNet(cs, xo, yo, netWeightOfCode(t.netw2[k])); }
   return c;
 }
 inline std::string showPlacement(const Circuit &c) {
